@@ -1,0 +1,42 @@
+package envelope
+
+import (
+	"io"
+
+	"github.com/ipld/go-ipld-prime"
+	"github.com/ipld/go-ipld-prime/codec"
+)
+
+// DecodeStreaming is ipld.DecodeStreaming, except that it also reports a read
+// error that the decoder did not get to see: a reader may return its error
+// together with the last bytes of the value, and the decoder stops reading
+// once the value is complete.
+func DecodeStreaming(r io.Reader, decFn codec.Decoder) (ipld.Node, error) {
+	lr := &errLatchReader{r: r}
+	node, err := ipld.DecodeStreaming(lr, decFn)
+	if err != nil {
+		return nil, err
+	}
+	if lr.err != nil {
+		return nil, lr.err
+	}
+	return node, nil
+}
+
+// errLatchReader remembers the first non-EOF error of the underlying reader,
+// and keeps returning it.
+type errLatchReader struct {
+	r   io.Reader
+	err error
+}
+
+func (l *errLatchReader) Read(p []byte) (int, error) {
+	if l.err != nil {
+		return 0, l.err
+	}
+	n, err := l.r.Read(p)
+	if err != nil && err != io.EOF {
+		l.err = err
+	}
+	return n, err
+}
